@@ -204,8 +204,75 @@ func genCoerce(c *ctx) string {
 		}
 	}
 	fmt.Fprintf(&b, "/-- `resolve`, leaf branch: on a `CoerceOut` error the response value is set to nil -/\ndef leafErrNulls : Bool := %s\n", leafErrNulls(c))
+	fmt.Fprintf(&b, "/-- `resolveList`: members of the typed slices ([]string, []int, …) are copied into the response without being resolved -/\ndef fastSliceCopies : Bool := %s\n", fastSliceCopies(c))
 	b.WriteString("end Ggql.Gen\n")
 	return b.String()
+}
+
+// fastSliceCopies reads the typed-slice cases of (*Root).resolveList.  Each must be
+//
+//	rlist := make([]interface{}, 0, len(list)) ; for _, x := range list { rlist = append(rlist, x) } ; result = rlist      (copy)
+//	rlist := make(…) ; for i, x := range list { rlist = append(rlist, root.resolveMember(x, i, vars, field, lt, depth, &ea)) } ; result = rlist
+//
+// and all seven must have the same form.
+func fastSliceCopies(c *ctx) string {
+	fd := c.funcs["Root.resolveList"]
+	if fd == nil {
+		return unknown("resolveList_missing", "resolve.go")
+	}
+	var ts *ast.TypeSwitchStmt
+	ast.Inspect(fd.Body, func(n ast.Node) bool {
+		if s, ok := n.(*ast.TypeSwitchStmt); ok && ts == nil {
+			ts = s
+			return false
+		}
+		return true
+	})
+	if ts == nil {
+		return unknown("resolveList_switch", c.pos(fd))
+	}
+	want := map[string]bool{"[]string": true, "[]int": true, "[]int64": true, "[]bool": true, "[]float32": true, "[]float64": true, "[]time.Time": true}
+	seen, copies, resolves := 0, 0, 0
+	for _, cl := range ts.Body.List {
+		cc := cl.(*ast.CaseClause)
+		if len(cc.List) != 1 || !want[c.src(cc.List[0])] {
+			// any other typed-slice case would be a new fast path
+			for _, e := range cc.List {
+				if t := c.src(e); strings.HasPrefix(t, "[]") && t != "[]interface{}" && !want[t] {
+					return unknown("resolveList_new_slice_case", c.pos(cc))
+				}
+			}
+			continue
+		}
+		seen++
+		body := normBody(c, cc.Body)
+		reCopy := regexp.MustCompile(`^rlist := make\(\[\]interface\{\}, 0, len\(list\)\) ; for _, (\w+) := range list \{ rlist = append\(rlist, (\w+)\) \} ; result = rlist$`)
+		reRes := regexp.MustCompile(`^rlist := make\(\[\]interface\{\}, 0, len\(list\)\) ; for i, (\w+) := range list \{ rlist = append\(rlist, root\.resolveMember\((\w+), i, vars, field, lt, depth, &ea\)\) \} ; result = rlist$`)
+		if m := reCopy.FindStringSubmatch(body); m != nil && m[1] == m[2] {
+			copies++
+		} else if m := reRes.FindStringSubmatch(body); m != nil && m[1] == m[2] {
+			resolves++
+		} else {
+			return unknown("resolveList_slice_body", c.pos(cc))
+		}
+	}
+	if seen != len(want) {
+		return unknown("resolveList_slice_cases", c.pos(ts))
+	}
+	if resolves > 0 {
+		// the helper must be the loop body of the []interface{} case
+		rm := c.funcs["Root.resolveMember"]
+		if rm == nil || normBody(c, rm.Body.List) != `v, ea := root.resolve(x, vars, field, lt, depth) ; Errors(ea).in(i) ; *eap = append(*eap, ea...) ; return v` {
+			return unknown("resolveMember_body", "resolve.go")
+		}
+	}
+	switch {
+	case copies == seen:
+		return "true"
+	case resolves == seen:
+		return "false"
+	}
+	return unknown("resolveList_slice_mixed", c.pos(ts))
 }
 
 // leafErrNulls reads the leaf branch of (*Root).resolve:
